@@ -29,7 +29,8 @@ CLAIMS = {
              "Chen for H) in both arms; the multi-piece aggregation updates of W, H, A are Chen's relation; update "
              "order (H and A use the loop-carried W); antisymmetry of A; H->U with the query length; zero-length arm "
              "returns fresh zeros; wrappers use an admissible (time map, output map) pair. Tree search cuts every query exactly (integer and near-coincident orderings); zero-length results have the shapes of ordinary ones; split identities also in dyadic mode."
-             " Replay of the real tree (exact rational times, symbolic unit normals, nothing mocked): W additivity and Chen's relation for U over triples asked in any order after forward-backward, adaptive-looking and dyadic histories, for cache sizes 0..unbounded, dt hints, plain and dyadic trees; zero-length queries (R03.9). The zero-length shortcut is taken only when the resolved end points coincide, also for queries one tolerance cell long (R03.2 at tolerance scales).",
+             " Replay of the real tree (exact rational times, symbolic unit normals, nothing mocked): W additivity and Chen's relation for U over triples asked in any order after forward-backward, adaptive-looking and dyadic histories, for cache sizes 0..unbounded, dt hints, plain and dyadic trees; zero-length queries (R03.9). The zero-length shortcut is taken only when the resolved end points coincide, also for queries one tolerance cell long (R03.2 at tolerance scales)."
+             " Replay through the wrappers' own constructors: BrownianTree, BrownianPath, ReverseBrownian are additive, point / interval consistent, repeatable, and the reflection maps (W, U) as Chen's relation prescribes (R03.10); Davie / Foster areas returned after a history are antisymmetric and repeatable after refinement (R03.11).",
         note="Partial: values after arbitrary histories rely on C05's structural rules; floating-point tolerance not "
              "decided. " + TRUSTED),
     "C04": dict(
@@ -37,7 +38,8 @@ CLAIMS = {
         text="Exact covariance matrix of (W_L,H_L,W_R,H_R) computed from the extracted coefficients equals "
              "diag(l, l/12, r, r/12) identically in l, r; top-level scalings; seed separation of the noises; Davie / "
              "Foster conditional mean and residual variance equal the prescribed formulas; noise at full shape. Split covariance also in dyadic mode with a rounded midpoint; aggregated Levy area has regression slope 1; quantisation grid no coarser than tol; 64-bit seeds. The generator that consumes a node seed uses all 64 bits of it (torch's CPU generator keeps 32; modelling fact)."
-             " Replay: the joint covariance of (W, U) over overlapping, nested and disjoint intervals after arbitrary histories equals, entry by entry in exact rationals, that of Brownian motion and its time integral computed from the definition (R04.10); the root's variance is the length of the node it covers, also with a tolerance (R04.2); a node's seeds are consumed by one split only (R05.2).",
+             " Replay: the joint covariance of (W, U) over overlapping, nested and disjoint intervals after arbitrary histories equals, entry by entry in exact rationals, that of Brownian motion and its time integral computed from the definition (R04.10); the root's variance is the length of the node it covers, also with a tolerance (R04.2); a node's seeds are consumed by one split only (R05.2)."
+             ' With a user-supplied end-to-end W (and H) the whole interval returns it verbatim and every other answer has the conditional mean and covariance of the bridge, by Gaussian conditioning of the reference covariances (R04.11).',
         note="Partial: the joint law over arbitrary interval sets follows from the split law by the Levy construction "
              "argument, which is on paper. " + TRUSTED),
     "C05": dict(
@@ -46,7 +48,8 @@ CLAIMS = {
              "are split; value functions read only write-once slots, parameters and the memo cache; every RNG call is "
              "seeded from a slot; no in-place operation on a tensor that may alias the cache; cache keyed by node "
              "identity."
-             ' Replay: every interval asked more than once in (history, probes, history backwards, probes) returns its first answer, for four histories x cache sizes x dt hints x tree modes (R05.8).',
+             ' Replay: every interval asked more than once in (history, probes, history backwards, probes) returns its first answer, for four histories x cache sizes x dt hints x tree modes (R05.8).'
+             ' (W, U, A) with Davie / Foster areas is returned unchanged when asked again after the tree was refined underneath (R03.11).',
         note="Assumes (read, not decided) that the interval decomposition does not depend on the search start. "
              + TRUSTED),
     "C06": dict(
@@ -54,7 +57,8 @@ CLAIMS = {
         text="Seeds are functions of (entropy, tree position, pool size) only; in dyadic mode the requested point has "
              "no explicit flow into the split point; every stored/compared time is quantised; history-dependent "
              "refinement is disabled in dyadic mode; BrownianTree forwards entropy/tol/pool_size/halfway_tree. Seeds at the point of use are the same whichever sibling's noise is requested first (SeedSequence.spawn modelled as stateful)."
-             ' Replay: equal (entropy, options, query sequence) give equal answers, also for an object built in a process where other Brownian objects were used; dyadic mode is independent of the history; another entropy changes the path (R06.10). No state shared between objects (R06.9).',
+             ' Replay: equal (entropy, options, query sequence) give equal answers, also for an object built in a process where other Brownian objects were used; dyadic mode is independent of the history; another entropy changes the path (R06.10). No state shared between objects (R06.9).'
+             " Through BrownianTree's own constructor the probes' values do not depend on the history (R06.11).",
         note="Partial: 'different entropies give different paths' is statistical and not decided. " + TRUSTED),
     "C07": dict(
         technique="call-graph acyclicity, must-write typestate, interval analysis, small-model path enumeration",
@@ -62,7 +66,8 @@ CLAIMS = {
              "no AttributeError from split-only slots (typestate), strictly positive refinement bound (interval "
              "analysis), cache never above cache_size (path enumeration over a small model), sub-tolerance queries "
              "short-circuited on quantised times, default Brownian motion spans the horizon. Every split request is dominated by a strict order on quantised values (no zero-length child, no child equal to its parent). _LRUDict driven through its own methods on a small model (bounds 1..8, three insertion patterns); statistics-driven refinement of the dependency tree is bounded by the query history (never by the length of one query)."
-             ' The dyadic descent terminates when the quantised midpoint of a node falls on one of its end points (adversarial quantiser, R07.8); every operation applied to the cache is provided by every cache class the constructor may install (R07.4 protocol).',
+             ' The dyadic descent terminates when the quantised midpoint of a node falls on one of its end points (adversarial quantiser, R07.8); every operation applied to the cache is provided by every cache class the constructor may install (R07.4 protocol).'
+             ' Replay: every query of four histories returns normally and the cache never holds more than cache_size entries, cache sizes 0..45 and unbounded (R07.9).',
         note="Termination of the trampolined search loops is not decided in general. " + TRUSTED),
     "C08": dict(
         technique="gradient-flow taint over def-use chains; create_graph / no_grad discipline at autograd sites",
@@ -77,7 +82,8 @@ CLAIMS = {
              "autograd.Function argument/None arity and saved-tensor layout agree; the backward sweep covers every "
              "output interval and injects every output cotangent exactly once with reflected times; default adjoint "
              "table total and valid. Backward sweep for all-nonzero and trailing-zero cotangents; Function.apply arguments bound by role (compared by value); differentiated forward values are computed with a graph. No SDE evaluation that reaches the adjoint Function as a tensor input is made outside it (one known finding: the initial extra state of reversible Heun)."
-             " The entry points make their solver calls in the caller's autograd mode, whether or not y0 requires grad (R09.8).",
+             " The entry points make their solver calls in the caller's autograd mode, whether or not y0 requires grad (R09.8)."
+             ' A single output time: the backward pass makes no solve and returns grad_ys[0] (R09.9).',
         note="Partial: convergence of adjoint gradients as dt->0 is not decided. " + TRUSTED),
     "C10": dict(
         technique="ast formula canonicalisation: algebraic inverse and transpose of the reversible Heun step",
@@ -143,7 +149,8 @@ CLAIMS = {
         technique="ast formula canonicalisation of the four logqp integrands; sibling agreement; slicing lint",
         text="The integrand is 1/2 |g^+(f-h)|^2 in all four sibling implementations; f_and_g_X == (f_X, g_X); the "
              "extra channel has zero diffusion and base functions see only y[:, :-1]; differencing L[i+1]-L[i]."
-             ' Off-grid outputs of the log-ratio channel are linear interpolants (R12.4); with adaptive steps the controller must not see the log-ratio channel (R18.7; known finding).',
+             ' Off-grid outputs of the log-ratio channel are linear interpolants (R12.4); with adaptive steps the controller must not see the log-ratio channel (R18.7; known finding).'
+             ' parse_return at the index level also for one and two output times (shape (len(ts) - 1, batch) for every len(ts) >= 1).',
         note="Partial: non-negativity as a number and solver accuracy are not decided. " + TRUSTED),
     "C19": dict(
         technique="finite-domain evaluation of dispatch + constructor guards; error-type and dominance lint",
@@ -155,7 +162,8 @@ CLAIMS = {
         technique="shape/axis lint: noise at full sample shape; no batch-axis reduction on the value path",
         text="Noise is drawn at the full sample shape; no reduction without dim or over dim 0, and no batch-collapsing "
              "broadcast, on the fixed-step value path."
-             ' R20.3 also with a single state channel.',
+             ' R20.3 also with a single state channel.'
+             ' The operators ForwardSDE derives, from their own bodies on index-level tensors with autograd modelled by its dependency structure: output row b depends on input row b, sizes including a single state / noise channel (R20.4).',
         note="Partial: user SDEs that mix rows are excluded by the property. " + TRUSTED),
 }
 
